@@ -25,11 +25,16 @@ CLAIMS = {
   "note": "Trusted: flock (fs4), OpenOptions::create_new atomicity, RwLock. Not decided: cross-process timing; the rollback-with-failing-new corner (recorded as an observation in DESIGN.md).",
   "technique": "who-may-construct / who-may-call / who-may-touch-field tables over MIR, value back-trace, visibility and impl-table facts (thorough: compile_fail witnesses)",
  },
+ "C11": {
+  "text": "Decides error discipline on every path: each of the ~1100 call sites reachable from the writer/open/reload entry points whose Result (or FutureResult) carries a storage error is classified by following its value through MIR (checked by ?/match, returned, passed on, or discarded / swallowed by an adapter / turned into a panic); the non-propagating sites must equal a frozen, individually reasoned table. Plus the structure that routes failures: first error returns before the commit point, both layers of JoinHandle::join are propagated, a worker returns Ok only through defuse(), merge runs under catch_unwind and every exit of the merge task sends to the waiting future, a killed updater refuses tasks, no oneshot Sender is orphaned.",
+  "note": "Trusted: std::thread, rayon, oneshot, crossbeam. Scope is an over-approximated call graph (trait calls expand to all workspace impls). Not decided: that a new writer can continue after a failure; storage content after a fault.",
+  "technique": "value-fate dataflow over MIR for Result-typed call results, reachability over the resolved call graph, dominance / must-pass path rules",
+ },
 }
 NA = {
  "C13": "quantifies over values returned by arbitrary advance/seek programs on stateful iterators; failures are arithmetic; the only structural statement (wrapper forwarding) is not a necessary condition, so no sound static rule is in reach",
  "C14": "aggregation results are run-time numeric values (bucket arithmetic, float sums, sketches); structural parts are already enforced by derive and the compiler",
 }
 # properties not yet claimed (checks under construction) are listed as not applicable *for now*
-for _p, _why in {'C02': 'check under construction in this session (rules designed in DESIGN.md section 4; not yet registered)', 'C03': 'check under construction in this session (rules designed in DESIGN.md section 4; not yet registered)', 'C04': 'check under construction in this session (rules designed in DESIGN.md section 4; not yet registered)', 'C06': 'check under construction in this session (rules designed in DESIGN.md section 4; not yet registered)', 'C07': 'check under construction in this session (rules designed in DESIGN.md section 4; not yet registered)', 'C08': 'check under construction in this session (rules designed in DESIGN.md section 4; not yet registered)', 'C09': 'check under construction in this session (rules designed in DESIGN.md section 4; not yet registered)', 'C11': 'check under construction in this session (rules designed in DESIGN.md section 4; not yet registered)', 'C12': 'check under construction in this session (rules designed in DESIGN.md section 4; not yet registered)', 'C15': 'check under construction in this session (rules designed in DESIGN.md section 4; not yet registered)', 'C16': 'check under construction in this session (rules designed in DESIGN.md section 4; not yet registered)', 'C17': 'check under construction in this session (rules designed in DESIGN.md section 4; not yet registered)', 'C19': 'check under construction in this session (rules designed in DESIGN.md section 4; not yet registered)', }.items():
+for _p, _why in {'C02': 'check under construction in this session (rules designed in DESIGN.md section 4; not yet registered)', 'C03': 'check under construction in this session (rules designed in DESIGN.md section 4; not yet registered)', 'C04': 'check under construction in this session (rules designed in DESIGN.md section 4; not yet registered)', 'C06': 'check under construction in this session (rules designed in DESIGN.md section 4; not yet registered)', 'C07': 'check under construction in this session (rules designed in DESIGN.md section 4; not yet registered)', 'C08': 'check under construction in this session (rules designed in DESIGN.md section 4; not yet registered)', 'C09': 'check under construction in this session (rules designed in DESIGN.md section 4; not yet registered)', 'C12': 'check under construction in this session (rules designed in DESIGN.md section 4; not yet registered)', 'C15': 'check under construction in this session (rules designed in DESIGN.md section 4; not yet registered)', 'C16': 'check under construction in this session (rules designed in DESIGN.md section 4; not yet registered)', 'C17': 'check under construction in this session (rules designed in DESIGN.md section 4; not yet registered)', 'C19': 'check under construction in this session (rules designed in DESIGN.md section 4; not yet registered)', }.items():
     NA[_p] = _why
